@@ -791,12 +791,6 @@ impl<'r, 'a> Hist<'r, 'a> {
         self.done("set_range_simd", res.map(|ok| json!({"m":"set_range","s":s,"e":e,"x":x as u8,"ok":ok})))
     }
     fn bitwise(&mut self, f: &str, other: &[bool], s: usize, e: usize) -> R {
-        // C04-KF9 (until work/patches/C04-9.diff is applied): the whole-block OR/XOR also writes the storage bits
-        // ABOVE len when `other` is longer than the vector - an effect the contract cannot describe (it shows up
-        // later: fast_ensure_set1 resurrects them, SE256/SE512/Simple count them).  That input region is excluded;
-        // with the patch applied the two lines below can go.
-        let cut = f != "and" && other.len() > self.bv.len();
-        let other = if cut { &other[..self.bv.len()] } else { other };
         let mut o = BitVector::new();
         for &b in other {
             o.push(b).expect("push");
